@@ -1,5 +1,10 @@
 #!/bin/bash
-# usage: check.sh <property> [quick|thorough]   -- (re)builds the checker if needed, analyses /repo's working tree
+# usage: check.sh <property> [quick|thorough]
+#   quick    : the property's rule instances on its anchored packages of /repo's working tree
+#   thorough : quick + (a) the same analysis with GOARCH=386 (integer-width dependent rules), (b) the mutation
+#              self-test of the rules that decide this property: every seeded change kept under seeded/<property>
+#              is applied virtually (overlay, nothing written to /repo) and must be reported. The self-test results
+#              are merged into the evidence file; a self-test mismatch means the CHECKER regressed (exit 2).
 set -u
 cd "$(dirname "$0")"
 export GOFLAGS=-mod=mod GOPROXY=off GOSUMDB=off GOTOOLCHAIN=local GOWORK=off
@@ -8,4 +13,34 @@ P="$1"; TIER="${2:-${VERIF_TIER:-quick}}"
 if [ ! -x bin/verifcheck ] || [ -n "$(find checker -newer bin/verifcheck -name '*.go' 2>/dev/null | head -1)" ]; then
   (cd checker && go build -o ../bin/verifcheck .) || { echo "checker build failed"; exit 2; }
 fi
-exec ./bin/verifcheck -p "$P" -tier "$TIER" -repo "${VERIF_REPO:-/repo}"
+REPO="${VERIF_REPO:-/repo}"
+if [ "$TIER" != "thorough" ]; then
+  exec ./bin/verifcheck -p "$P" -tier "$TIER" -repo "$REPO"
+fi
+./bin/verifcheck -p "$P" -tier thorough -repo "$REPO"; rc=$?
+[ $rc -ne 0 ] && exit $rc
+# (a) 32-bit variant
+T386=$(mktemp -d /tmp/verif-386.XXXXXX); cp known_findings.txt "$T386/"
+out386=$(VERIF_DIR="$T386" VERIF_GOARCH=386 ./bin/verifcheck -p "$P" -tier thorough -repo "$REPO" 2>&1); rc386=$?
+sum386=$(echo "$out386" | grep '^property=' | tail -1)
+rm -rf "$T386"
+if [ $rc386 -ne 0 ]; then
+  echo "$out386" | grep -E '^  (violation|UNDECIDED|ANCHOR)' | sed 's/^/  [GOARCH=386]/'
+  echo "$out386" | grep '^VIOLATION'
+  exit $rc386
+fi
+# (b) mutation self-test
+st=$(./selftest.sh "$P" 2>&1); strc=$?
+echo "$st"
+python3 - "$P" "$sum386" "$strc" <<PY
+import json,sys
+p,sum386,strc=sys.argv[1],sys.argv[2],int(sys.argv[3])
+path=f"evidence/{p}.json"
+e=json.load(open(path))
+lines=[l for l in """$st""".splitlines() if l.startswith("SELFTEST")]
+e["coverage"]["goarch_386"]=sum386
+e["coverage"]["selftest"]={"what":"each seeded change under seeded/%s applied as an overlay (virtual tree) and analysed by this property's rules; expectation in seeded/EXPECT"%p,"results":lines,"as_expected":strc==0}
+json.dump(e,open(path,"w"),indent=1)
+PY
+if [ $strc -ne 0 ]; then echo "checker self-test mismatch for $P (the rules no longer report a seeded change they used to report)"; exit 2; fi
+exit 0
